@@ -46,6 +46,9 @@ GEOMETRY_ZOO = [
     "try:\n    value = risky(1)\nexcept ValueError as err:\n    handle(err)\nfinally:\n    cleanup()\n",
     "a = {'k': [1, 2, (3, 4)], 'j': {5, 6}}\nb = a['k'][2][0] + a.get('z', 0)\n",
     "lam = lambda q, r=2: q * r\nprint(lam(3), lam(r=1, q=2))\n",
+    "@ spaced\n@(paren)\n@  other . attr (1)\ndef target(a):\n    return a\n\nclass K:\n    @ staticmethod\n    def m(v):\n        return v @ v\n",
+    "def target(a):\n    return a @b  # ends with @",
+    "def first(a): return a\n@first\nclass Deco: pass  # @",
 ]
 FEATURES = ["plain", "multibyte-same-line", "multibyte-earlier-line", "no-trailing-newline", "crlf", "cr", "formfeed-in-literal", "u2028-in-literal",
             "x85-in-comment", "x1c-in-literal", "indented", "formfeed-between"]
@@ -131,7 +134,8 @@ def ref_span(source, nodes):
     decs = getattr(first, "decorator_list", None)
     if decs:
         d = min(decs, key=lambda x: (x.lineno, x.col_offset))
-        s = char_offset(lines, starts, d.lineno, d.col_offset) - 1
+        # the '@' of the first decorator: blanks (and an opening parenthesis) may sit between it and the expression
+        s = source.rfind("@", 0, char_offset(lines, starts, d.lineno, d.col_offset))
     else:
         s = char_offset(lines, starts, first.lineno, first.col_offset)
     e = char_offset(lines, starts, last.end_lineno, last.end_col_offset)
